@@ -295,7 +295,7 @@ def rule_prim(ctx, crate):
                         '%s stores through a pointer derived from a shared borrow (`%s` + %s, then cast to *mut): the pointer carries no write permission, stores through it are undefined and may be discarded by the optimiser' % (
                             name, root[1] if root_ok else root, 'as_ptr' if ch['via_mut_ptr'] is False else 'no slice pointer'),
                         key=name + '.prov')
-        summary[name] = {'aligned': aligned, 'where': where}
+        summary[name] = {'aligned': aligned, 'where': where, 'body': b.d}    # (the body, helpers inlined, for G-PRIM)
         # unwinding
         from geninterp import NO_UNWIND_EXTERNAL
         for bb, t in b.calls():
